@@ -13,8 +13,11 @@ import (
 	"fmt"
 	"io"
 	"log"
+	"net"
 	"os"
+	"runtime/debug"
 	"sync"
+	"syscall"
 	"testing"
 	"time"
 
@@ -23,6 +26,7 @@ import (
 	"github.com/fiorix/go-diameter/v4/diam/dict"
 	"pgregory.net/rapid"
 
+	"verif/internal/dicts"
 	"verif/internal/ev"
 	"verif/internal/gen"
 	"verif/internal/memnet"
@@ -51,21 +55,138 @@ type CConn struct {
 	// CloseNotify: the handler of this connection's first request asks for the CloseNotify
 	// channel (from then on the library keeps a read outstanding while handlers run).
 	CloseNotify bool `json:"close_notify,omitempty"`
+	// Cmd: the command of this connection's requests, an index of cmdTable (0: Device-Watchdog of
+	// the base application, as before; others: a command that only a non-base application defines).
+	Cmd int `json:"cmd,omitempty"`
 }
 
 type Step struct {
 	Conn int  `json:"conn"` // next action of this connection (open, then its items); -1: a temporary accept error
 	Sync bool `json:"sync,omitempty"`
+	// ErrKind (accept errors): which temporary error Accept returns, see acceptError
+	ErrKind int `json:"err_kind,omitempty"`
 }
 
 type Case struct {
 	Conns []CConn `json:"conns"`
 	Steps []Step  `json:"steps"` // afterwards the remaining actions run connection by connection
 	LateN int     `json:"late_n"`
+	// AnonListener: the listener's Addr() returns nil (a listener that has no address to show;
+	// Serve's own code for fatal accept errors allows for it).
+	AnonListener bool `json:"anon_listener,omitempty"`
+	// Cmd: the command of the connection opened after all faults, and the command code that the
+	// "command of another application" kinds of undecodable input carry (index of cmdTable; 0: DWR
+	// for the late connection, Credit-Control for the undecodable header).
+	Cmd int `json:"cmd,omitempty"`
+	// PrivateDict: the server gets a dictionary parser of its own (Server.Dict, loaded for this
+	// case with the documents dict.Default is made of) instead of the shared dict.Default.
+	PrivateDict bool `json:"private_dict,omitempty"`
 }
 
-func request(conn, seq int, marked bool) []byte {
-	m := gen.Msg{Flags: 0x80, Code: 280, App: 0, HbH: uint32(conn*100 + seq + 1), E2E: uint32(0xC1500000 + conn*100 + seq), AVPs: []*gen.AVP{
+// cmdTable: commands the healthy traffic can use. Entry 0 is the base application's watchdog
+// request. The others exist in dict.Default only in the named application (not in the base
+// application): sent under WrongApps[i] their header cannot be decoded.
+var cmdTable = []struct {
+	Name      string // the name a ServeMux handler is registered with
+	Code, App uint32
+	WrongApps [2]uint32
+}{
+	{"DWR", 280, 0, [2]uint32{0, 0}},
+	{"CCR", 272, 4, [2]uint32{0, 16777251}},
+	{"CCR", 272, 16777238, [2]uint32{0, 16777265}}, // Gx
+	{"ULR", 316, 16777251, [2]uint32{0, 4}},        // S6a
+	{"AAR", 265, 16777236, [2]uint32{0, 16777238}}, // Rx
+	{"MAR", 303, 16777265, [2]uint32{0, 16777251}}, // SWx
+	{"AIR", 318, 16777251, [2]uint32{0, 1}},        // S6a
+}
+
+func cmdIndex(i int) int {
+	if i < 0 {
+		i = -i
+	}
+	return i % len(cmdTable)
+}
+
+// privateDict builds a fresh parser holding what dict.Default holds.
+func privateDict() (*dict.Parser, error) {
+	emb, err := dicts.EmbeddedXML()
+	if err != nil {
+		return nil, err
+	}
+	var xmls []string
+	for _, e := range emb {
+		if e.Loaded {
+			xmls = append(xmls, e.XML)
+		}
+	}
+	return dicts.Load(xmls...)
+}
+
+// anonListener is a listener that has no address to show.
+type anonListener struct{ *memnet.Listener }
+
+func (anonListener) Addr() net.Addr { return nil }
+
+const acceptErrKinds = 4
+
+// acceptError returns a temporary accept error: the scripted one of memnet, a timeout, and what
+// the net package returns from Accept when the process is out of file descriptors or the peer
+// aborted the connection before it was accepted.
+func acceptError(kind int, addr net.Addr) error {
+	switch kind % acceptErrKinds {
+	case 1:
+		return &memnet.TimeoutError{} // Temporary() and Timeout()
+	case 2:
+		return &net.OpError{Op: "accept", Net: "tcp", Addr: addr, Err: os.NewSyscallError("accept4", syscall.EMFILE)}
+	case 3:
+		return &net.OpError{Op: "accept", Net: "tcp", Addr: addr, Err: syscall.ECONNABORTED} // temporary when it comes from accept
+	}
+	return &memnet.TempError{Msg: "scripted temporary accept error"}
+}
+
+// servePanic is what serveGuarded delivers when Serve did not return but panicked.
+type servePanic struct {
+	val   interface{}
+	stack string
+}
+
+func (p *servePanic) Error() string {
+	return fmt.Sprintf("panic in the goroutine running Serve: %v\n%s", p.val, p.stack)
+}
+
+// serveGuarded runs srv.Serve(l) in a goroutine of its own. A panic of that goroutine (in a real
+// program: the end of the process and of every connection it serves) is delivered like a return.
+func serveGuarded(srv *diam.Server, l net.Listener) chan error {
+	ch := make(chan error, 1)
+	go func() {
+		defer func() {
+			if r := recover(); r != nil {
+				st := string(debug.Stack())
+				if len(st) > 1500 {
+					st = st[:1500] + "\n...(truncated)"
+				}
+				ch <- &servePanic{val: r, stack: st}
+			}
+		}()
+		ch <- srv.Serve(l)
+	}()
+	return ch
+}
+
+// serveEnded turns what serveGuarded delivered into a failure.
+func serveEnded(prefix string, err error) *ev.Failure {
+	if p, ok := err.(*servePanic); ok {
+		return ev.Failf(prefix+"serve-panicked", "the accept loop stopped: %v", p)
+	}
+	return ev.Failf(prefix+"serve-returned", "Server.Serve returned (%v) although the listener was not closed", err)
+}
+
+func request(conn, seq int, marked bool) []byte { return requestCmd(0, conn, seq, marked) }
+
+// requestCmd is request with the command (and application) of cmdTable[cmd].
+func requestCmd(cmd, conn, seq int, marked bool) []byte {
+	ct := cmdTable[cmdIndex(cmd)]
+	m := gen.Msg{Flags: 0x80, Code: ct.Code, App: ct.App, HbH: uint32(conn*100 + seq + 1), E2E: uint32(0xC1500000 + conn*100 + seq), AVPs: []*gen.AVP{
 		{Code: codeConn, Flags: 0x40, V: gen.Val{T: gen.TUnsigned32, U: uint64(conn)}},
 		{Code: codeSeq, Flags: 0x40, V: gen.Val{T: gen.TUnsigned32, U: uint64(seq)}},
 	}}
@@ -75,14 +196,30 @@ func request(conn, seq int, marked bool) []byte {
 	return m.RefBytes()
 }
 
-const garbageVariants = 7
+const garbageVariants = 9
 
 // garbage returns bytes that no Diameter decoder can accept as the next message.
-func garbage(variant int) []byte {
+func garbage(variant int) []byte { return garbageCmd(variant, 1) }
+
+// garbageCmd is garbage; the "command of another application" variants carry the command code of
+// cmdTable[cmd] (Credit-Control if cmd is 0).
+func garbageCmd(variant, cmd int) []byte {
 	hdr := func(length, code uint32) []byte {
 		return refcodec.EncodeHeader(refcodec.Header{Version: 1, Length: length, Flags: 0x80, Code: code, HopByHop: 7, EndToEnd: 7})
 	}
+	if cmd = cmdIndex(cmd); cmd == 0 {
+		cmd = 1
+	}
+	ct := cmdTable[cmd]
 	switch variant % garbageVariants {
+	case 7: // a command that exists, but not in the application the header names (the base application): header only
+		return refcodec.EncodeHeader(refcodec.Header{Version: 1, Length: 20, Flags: 0x80, Code: ct.Code, App: ct.WrongApps[0], HopByHop: 7, EndToEnd: 7})
+	case 8: // the same with another application that does not define the command, as a complete message with AVPs
+		m := gen.Msg{Flags: 0x80, Code: ct.Code, App: ct.WrongApps[1], HbH: 7, E2E: 7, AVPs: []*gen.AVP{
+			{Code: codeConn, Flags: 0x40, V: gen.Val{T: gen.TUnsigned32, U: 77}},
+			{Code: codeSeq, Flags: 0x40, V: gen.Val{T: gen.TUnsigned32, U: 1}},
+		}}
+		return m.RefBytes()
 	case 0: // declared message length below the header size
 		return hdr(8, 280)
 	case 1: // a command no dictionary knows
@@ -106,7 +243,7 @@ func garbage(variant int) []byte {
 type action struct {
 	conn int
 	kind string // open | request | panic | garbage | eof | reset | ignored-request | accepterr
-	seq  int
+	seq  int    // request number; accepterr: the kind of error
 }
 
 // actions lists what a connection does, in order.
@@ -158,7 +295,7 @@ func timeline(c *Case) []struct {
 	}
 	for _, s := range c.Steps {
 		if s.Conn == -1 {
-			emit(action{conn: -1, kind: "accepterr"}, false)
+			emit(action{conn: -1, kind: "accepterr", seq: s.ErrKind}, false)
 			continue
 		}
 		if s.Conn < 0 || s.Conn >= len(c.Conns) || next[s.Conn] >= len(acts[s.Conn]) {
@@ -347,9 +484,21 @@ func runCase(c Case) *ev.Failure {
 	}()
 
 	lis := memnet.NewListener(len(c.Conns) + len(c.Steps) + 4)
-	srv := &diam.Server{Handler: rep, Dict: dict.Default}
-	served := make(chan error, 1)
-	go func() { served <- srv.Serve(lis) }()
+	var nl net.Listener = lis
+	if c.AnonListener {
+		nl = anonListener{lis}
+	}
+	dp := dict.Default
+	if c.PrivateDict {
+		var err error
+		if dp, err = privateDict(); err != nil {
+			close(stop)
+			bg.Wait()
+			return ev.Failf("harness-dict", "cannot build the private dictionary: %v", err)
+		}
+	}
+	srv := &diam.Server{Handler: rep, Dict: dp}
+	served := serveGuarded(srv, nl)
 
 	conns := make([]*memnet.Conn, nconn)
 	for i := range conns {
@@ -363,7 +512,7 @@ func runCase(c Case) *ev.Failure {
 		select {
 		case err := <-served:
 			served <- err
-			return ev.Failf("serve-returned", "Server.Serve returned (%v) although the listener was not closed", err)
+			return serveEnded("", err)
 		default:
 			return nil
 		}
@@ -376,11 +525,11 @@ func runCase(c Case) *ev.Failure {
 		for _, a := range timeline(&c) {
 			switch a.kind {
 			case "accepterr":
-				lis.PushErr(&memnet.TempError{Msg: "scripted temporary accept error"})
+				lis.PushErr(acceptError(a.seq, nl.Addr()))
 			case "open":
 				lis.Push(conns[a.conn])
 			case "request", "ignored-request":
-				conns[a.conn].Feed(request(a.conn, a.seq, false))
+				conns[a.conn].Feed(requestCmd(c.Conns[a.conn].Cmd, a.conn, a.seq, false))
 				if healthy(a.conn) {
 					sent[a.conn] = a.seq
 					if a.sync {
@@ -422,13 +571,13 @@ func runCase(c Case) *ev.Failure {
 					}
 				}
 				if a.kind == "panic" {
-					conns[a.conn].Feed(request(a.conn, a.seq, true))
+					conns[a.conn].Feed(requestCmd(c.Conns[a.conn].Cmd, a.conn, a.seq, true))
 				} else {
-					conns[a.conn].Feed(garbage(c.Conns[a.conn].Variant))
+					conns[a.conn].Feed(garbageCmd(c.Conns[a.conn].Variant, c.Cmd))
 				}
 			case "eof", "reset":
 				if cut := c.Conns[a.conn].Cut; cut > 0 {
-					r := request(a.conn, a.seq, false)
+					r := requestCmd(c.Conns[a.conn].Cmd, a.conn, a.seq, false)
 					if cut >= len(r) {
 						cut = len(r) - 1
 					}
@@ -443,6 +592,9 @@ func runCase(c Case) *ev.Failure {
 			switch a.kind {
 			case "panic", "garbage", "eof", "reset":
 				if a.sync && !conns[a.conn].WaitClosed(promptDeadline) {
+					if f := serveReturned(); f != nil {
+						return f
+					}
 					return ev.Failf("faulty-conn-not-closed", "connection %d: transport not closed within %v of the %s fault", a.conn, promptDeadline, a.kind)
 				}
 			}
@@ -473,6 +625,9 @@ func runCase(c Case) *ev.Failure {
 				continue
 			}
 			if !conns[i].WaitClosed(promptDeadline) {
+				if f := serveReturned(); f != nil {
+					return f
+				}
 				return ev.Failf("faulty-conn-not-closed", "connection %d: transport not closed within %v of the %s fault", i, promptDeadline, f)
 			}
 			if f == "garbage" || f == "reset" || (f == "eof" && c.Conns[i].Cut > 0) {
@@ -526,7 +681,7 @@ func runCase(c Case) *ev.Failure {
 		// a connection opened after all faults is accepted and served
 		lis.Push(late)
 		for s := 1; s <= c.LateN; s++ {
-			late.Feed(request(lateConn, s, false))
+			late.Feed(requestCmd(c.Cmd, lateConn, s, false))
 		}
 		if miss, err := waitAnswers(late, lateConn, c.LateN, promptDeadline); err != nil {
 			return ev.Failf("answers-garbled", "late connection: %v", err)
@@ -571,8 +726,17 @@ func runCase(c Case) *ev.Failure {
 func genCase(t *rapid.T) Case {
 	var c Case
 	nc := rapid.IntRange(2, 5).Draw(t, "conns")
+	// half of the cases: part of the traffic uses a command of a non-base application
+	if rapid.Bool().Draw(t, "foreign-command-traffic") {
+		c.Cmd = rapid.IntRange(1, len(cmdTable)-1).Draw(t, "cmd")
+	}
+	c.PrivateDict = rapid.IntRange(0, 3).Draw(t, "private-dict") == 0
+	c.AnonListener = rapid.IntRange(0, 2).Draw(t, "anon-listener") == 0
 	for i := 0; i < nc; i++ {
 		cc := CConn{N: rapid.IntRange(1, 6).Draw(t, "n")}
+		if c.Cmd != 0 && rapid.IntRange(0, 2).Draw(t, "conn-uses-cmd") != 0 {
+			cc.Cmd = c.Cmd
+		}
 		cc.Fault = rapid.SampledFrom([]string{"", "panic", "garbage", "", "eof", "reset", ""}).Draw(t, "fault")
 		cc.CloseNotify = rapid.IntRange(0, 2).Draw(t, "close-notify") == 0
 		if cc.Fault != "" {
@@ -580,6 +744,9 @@ func genCase(t *rapid.T) Case {
 			switch cc.Fault {
 			case "garbage":
 				cc.Variant = rapid.IntRange(0, garbageVariants-1).Draw(t, "variant")
+				if c.Cmd != 0 && rapid.Bool().Draw(t, "command-of-another-application") {
+					cc.Variant = rapid.IntRange(7, 8).Draw(t, "foreign-variant")
+				}
 				cc.StuckWrite = cc.At >= 1 && rapid.IntRange(0, 2).Draw(t, "stuck-write") == 0
 			case "panic":
 				cc.StuckWrite = cc.At >= 1 && rapid.IntRange(0, 2).Draw(t, "stuck-write") == 0
@@ -599,7 +766,7 @@ func genCase(t *rapid.T) Case {
 	}
 	if !anyHealthy {
 		i := rapid.IntRange(0, nc-1).Draw(t, "healthy")
-		c.Conns[i] = CConn{N: c.Conns[i].N}
+		c.Conns[i] = CConn{N: c.Conns[i].N, Cmd: c.Conns[i].Cmd}
 	}
 	ns := rapid.IntRange(6, 48).Draw(t, "steps")
 	errs := 0
@@ -611,6 +778,7 @@ func genCase(t *rapid.T) Case {
 				s.Conn = rapid.IntRange(0, nc-1).Draw(t, "conn-instead")
 			} else {
 				errs++
+				s.ErrKind = rapid.IntRange(0, acceptErrKinds-1).Draw(t, "accept-error-kind")
 			}
 		}
 		if s.Conn >= 0 {
@@ -632,9 +800,25 @@ func classify(c Case) (bool, []string) {
 		}
 	}
 	add(fmt.Sprintf("conns:%d", len(c.Conns)))
+	if c.PrivateDict {
+		add("dict:private")
+	} else {
+		add("dict:default")
+	}
+	if c.Cmd != 0 {
+		add("late-conn-command:" + cmdTable[cmdIndex(c.Cmd)].Name)
+	}
 	nf := 0
 	for _, cc := range c.Conns {
 		if cc.Fault == "" {
+			if cc.Cmd != 0 {
+				add("healthy-conn-command:" + cmdTable[cmdIndex(cc.Cmd)].Name)
+				for _, fc := range c.Conns {
+					if fc.Fault == "garbage" && fc.Variant%garbageVariants >= 7 && cmdIndex(cc.Cmd) == cmdIndex(c.Cmd) {
+						add("healthy-conn-uses-the-command-of-the-undecodable-header")
+					}
+				}
+			}
 			continue
 		}
 		nf++
@@ -685,6 +869,10 @@ func classify(c Case) (bool, []string) {
 			}
 			if a.kind == "accepterr" {
 				add("accept-error")
+				add(fmt.Sprintf("accept-error-kind:%d", a.seq%acceptErrKinds))
+				if c.AnonListener {
+					add("accept-error-on-a-listener-without-address")
+				}
 				if opened < len(c.Conns) {
 					add("accept-error-before-an-open")
 				}
@@ -704,7 +892,7 @@ func classify(c Case) (bool, []string) {
 
 var prop = ev.Register(&ev.Prop[Case]{
 	ID: "C15", Name: "isolation",
-	Rule: "Server.Serve on a memnet.Listener; 2..5 connections with 1..6 numbered requests (1 in 3 connections: the first handler requests CloseNotify); faults: a marked request whose handler panics (with a string, or - on odd-numbered connections - with a nil value under GODEBUG panicnil=1), undecodable bytes (7 variants, two of them complete messages with a malformed member inside a grouped AVP), either of them optionally while a server-side Write of another goroutine is stuck in that connection's transport, EOF / reset at a message boundary or inside a message, at position 0..N of the connection's sequence; 0..3 temporary accept errors; a scripted global interleaving of open / feed actions, each optionally awaited (answer received / faulty transport closed) before the script continues; at the end every healthy connection must hold the answer to each of its requests, every faulty transport must be closed, undecodable input must have been offered to the ErrorReporter with that connection, a connection opened afterwards must be served and Serve must not have returned; non-trivial = a fault (or accept error) is scripted between two requests of a healthy connection",
+	Rule: "Server.Serve on a memnet.Listener; 2..5 connections with 1..6 numbered requests (1 in 3 connections: the first handler requests CloseNotify); faults: a marked request whose handler panics (with a string, or - on odd-numbered connections - with a nil value under GODEBUG panicnil=1), undecodable bytes (9 variants, two of them complete messages with a malformed member inside a grouped AVP), either of them optionally while a server-side Write of another goroutine is stuck in that connection's transport, EOF / reset at a message boundary or inside a message, at position 0..N of the connection's sequence; 0..3 temporary accept errors (4 kinds: memnet's, a timeout, net.OpError with EMFILE / ECONNABORTED), in 1 case of 3 on a listener whose Addr() is nil; in half of the cases part of the connections and the late connection send a command that only a non-base application defines (CCR, Gx CCR, ULR, AAR, MAR, AIR) and the undecodable input is then often a header carrying that command code under an application that does not define it (variants 7, 8); in 1 case of 4 the server has a dictionary parser of its own instead of dict.Default; a scripted global interleaving of open / feed actions, each optionally awaited (answer received / faulty transport closed) before the script continues; at the end every healthy connection must hold the answer to each of its requests, every faulty transport must be closed, undecodable input must have been offered to the ErrorReporter with that connection, a connection opened afterwards must be served and Serve must neither have returned nor panicked; non-trivial = a fault (or accept error) is scripted between two requests of a healthy connection",
 	Gen:  genCase, Run: runCase, Classify: classify, Attempts: 5,
 })
 
@@ -716,3 +904,13 @@ func TestMain(m *testing.M) {
 func TestC15Isolation(t *testing.T) { prop.Check(t, 300, 15000) }
 func TestC15Keep(t *testing.T)      { ev.RunKeep(t, "C15") }
 func TestReplay(t *testing.T)       { ev.Replay(t) }
+
+// The scripted accept errors are temporary ones (a harness precondition, not a demand on the library).
+func TestC15HarnessAcceptErrors(t *testing.T) {
+	for k := 0; k < acceptErrKinds; k++ {
+		ne, ok := acceptError(k, nil).(net.Error)
+		if !ok || !ne.Temporary() {
+			t.Fatalf("harness: accept error kind %d is not a temporary net.Error", k)
+		}
+	}
+}
